@@ -292,13 +292,31 @@ def run(ctx):
             df[f"var{p - 1}"] = x[:, -1].copy()
             layout = "column-appended"
         ctx.count("outlier_frame_layout", layout)
-        inp = {"fn": "add_linspace_outliers", "n": n, "p": p, "n_outliers": k, "outlier_size": size, "x": x.tolist(), "frame_layout": layout}
+        # "rows" are POSITIONS, whatever the row labels of the frame: offset / reversed / permuted integer labels, time stamps, the tail of a longer frame
+        index_kind = ["default", "offset", "reversed", "datetime", "tail-slice", "permuted"][(i // 3) % 6]
+        if index_kind == "offset":
+            df.index = pd.RangeIndex(7, 7 + n)
+        elif index_kind == "reversed":
+            df.index = pd.Index(list(range(n - 1, -1, -1)))
+        elif index_kind == "datetime":
+            df.index = pd.date_range("2021-03-04", periods=n, freq="h")
+        elif index_kind == "tail-slice":
+            df = pd.concat([pd.DataFrame(np.zeros((3, p)), columns=df.columns), df], ignore_index=True).iloc[3:]
+        elif index_kind == "permuted":
+            df.index = pd.Index([int(v) for v in np.random.default_rng(i).permutation(n)])
+        ctx.count("outlier_frame_index", index_kind)
+        labels_before = [str(v) for v in df.index]
+        inp = {"fn": "add_linspace_outliers", "n": n, "p": p, "n_outliers": k, "outlier_size": size, "x": x.tolist(), "frame_layout": layout, "frame_index": index_kind}
         st, out = call(G.add_linspace_outliers, df, k, size)
         if st != "ok":
             ctx.violation(f"add_linspace_outliers(n={n}, p={p}, n_outliers={k}) raised {st}: {out}", inp,
                           {"what": "outliers-exception", "cls": st.split(':')[-1], "p_gt_1": p > 1})
             continue
         pos = [int(v) for v in np.linspace(0, n - 1, k, dtype=int)]     # the library's own front-end expression on the ROW count
+        if out.shape != (n, p) or [str(v) for v in out.index] != labels_before:
+            ctx.violation(f"add_linspace_outliers(n={n}, p={p}, n_outliers={k}) on a frame with a {index_kind} index returned a frame of shape {out.shape} / other row labels",
+                          inp, {"what": "outliers-frame", "index": index_kind})
+            continue
         impl = out.to_numpy().tolist()
         inp.update({"positions": pos, "impl": impl})
         cases.append(f"(GOutliers {fmat(x.tolist())} {k} {nlist(pos)} {fl(size)} {fmat(impl)})")
